@@ -631,6 +631,7 @@ func propC13() *PropSpec {
 				js = append(js, Job{Pkg: ".", Fn: "VerifRegistrySharedState", N: n, NoNative: true, Desc: "write-set monitor: 5 entry points x 9 media types on a registry with literal and pattern entries"})
 			}
 			js = append(js, jobsN(".", "VerifResultStable", rng(0, 2), "a Bytes / String result is not touched by later calls (sync.Pool modelled as a LIFO free list)")...)
+			js = append(js, Job{Pkg: ".", Fn: "VerifCmdMinifierFault", N: 1, NoNative: true, Desc: "AddCmd minifier: a second call on the same registration behaves like the first (the registered command is not written to)"})
 			js = append(js, Job{Pkg: ".", Fn: "VerifDispatchTwin", N: 0, ExpectFail: true, Desc: "vacuity twin"})
 			return js
 		},
